@@ -270,3 +270,25 @@ fn c12_witness_must_fail() {
     let d = DistanceMetric::Manhattan.compute_f32(&a, &b).unwrap();
     assert!(d != man as f32, "reachability witness");
 }
+
+// Layer assignment (source slice): LayerGen::generate draws from the thread RNG, which Kani cannot
+// execute; its final clamp is what keeps every assigned layer loadable (validate_loaded_node insists on
+// layer < max_layers) and never skips more than one layer. ./check extracts the tail expression of
+// generate() from the current distance.rs on every run.
+include!("/verif/slices/layer_clamp.rs");
+
+// @check id=C12 tier=quick cap=300 needs=slice_layer role=layer_clamp
+// @fns distance::LayerGen::generate (final clamp expression, sliced), distance::LayerGen::new_with_scale (max_level >= 1)
+// @bound every drawn level, current maximum layer and max_level >= 1 (all u8)
+// @assume the sliced expression is generate()'s return value (extracted textually); new_with_scale stores max_level.max(1)
+#[kani::proof]
+fn c12_assigned_layer_is_always_loadable() {
+    let (level, cur, max_level): (u8, u8, u8) = (kani::any(), kani::any(), kani::any());
+    kani::assume(max_level >= 1);
+    let l = slice_layer_clamp(level, cur, max_level);
+    assert!(l < max_level, "an assigned layer is below max_layers, so the node's blob passes validate_loaded_node on reload");
+    assert!(l <= level && (l as u16) <= cur as u16 + 1, "the draw is only ever lowered, and never skips more than one layer above the current top");
+    kani::cover!(l == max_level - 1 && level > l, "clamped by the layer budget");
+    kani::cover!(l as u16 == cur as u16 + 1 && level > l, "clamped to one above the current top");
+    kani::cover!(l == level, "draw kept");
+}
